@@ -50,7 +50,8 @@ using vj::Value;
 
 // ----------------------------------------------------------------------------- fixed content
 static std::vector<double> SX, SY, TX, TY;     // geometry, from the spec
-static int NMAXI = 2, NLAG = 4;
+static int NMAXI = 2, NLAG = 4, GNX = 3;
+static double GDX = 3.5, GDY = 3.;
 static double LAGW = 2.;
 static int SEED = 1;
 // values carried by the sample identities (dyadic rationals: sums are exact whatever the order)
@@ -186,7 +187,7 @@ static Db* buildTargets(const Case* cs, bool withF, char variant = 'M')
 
 static DbGrid* buildGrid(const Case* cs)
 {
-  DbGrid* g = DbGrid::create({3, 3}, {3.5, 3.}, {0., 0.});
+  DbGrid* g = DbGrid::create({GNX, GNX}, {GDX, GDY}, {0., 0.});
   if (cs != nullptr && cs->tcase)
   {
     VectorDouble prior(9), sel(9);
@@ -334,6 +335,22 @@ static Res runOp(const Case& cs, const std::string& op, Db* db)
           }
       delete vr;
     }
+    // other calculations sharing the pair loops: covariance, and the by-sample algorithm
+    for (int alt = 0; alt < 2; alt++)
+    {
+      Db* d2 = db->clone();
+      Vario* v2 = (alt == 0) ? Vario::computeFromDb(*vp, d2, ECalcVario::COVARIANCE)
+                             : Vario::computeFromDb(*vp, d2, ECalcVario::VARIOGRAM, true);
+      for (int iv = 0; iv < cs.nvar; iv++)
+        for (int jv = 0; jv <= iv; jv++)
+          for (int l = 0; l < NLAG; l++)
+          {
+            r.v.push_back(v2 == nullptr ? TEST : v2->getSw(0, iv, jv, l));
+            r.v.push_back(v2 == nullptr ? TEST : v2->getHh(0, iv, jv, l));
+            r.v.push_back(v2 == nullptr ? TEST : v2->getGg(0, iv, jv, l));
+          }
+      delete v2; delete d2;
+    }
     delete d; delete vp;
   }
   else if (op == "stat" || op == "stat_iso")
@@ -418,6 +435,15 @@ static Res runOp(const Case& cs, const std::string& op, Db* db)
     Db* tg = buildTargets(nullptr, false);
     int nc0 = tg->getColumnNumber();
     int err = migrate(db, tg, "z1", 1, VectorDouble(), false, false, op == "migrate_ball");
+    if (err) r.st = "err";
+    pushNewColumns(r, tg, nc0);
+    delete tg;
+  }
+  else if (op == "migrate_grid" || op == "migrate_fill")
+  {
+    DbGrid* tg = buildGrid(nullptr);
+    int nc0 = tg->getColumnNumber();
+    int err = migrate(db, tg, "z1", 1, VectorDouble(), op == "migrate_fill", false, false);
     if (err) r.st = "err";
     pushNewColumns(r, tg, nc0);
     delete tg;
@@ -629,6 +655,7 @@ int main(int argc, char** argv)
   SX = cfg.at("sx").doubles(); SY = cfg.at("sy").doubles();
   TX = cfg.at("tx").doubles(); TY = cfg.at("ty").doubles();
   NMAXI = cfg.at("nmaxi").i(); NLAG = cfg.at("nlag").i(); LAGW = cfg.at("lagw").d();
+  GNX = cfg.at("gnx").i(); GDX = cfg.at("gdx2").d() / 2.; GDY = cfg.at("gdy2").d() / 2.;
   SEED = cfg.geti("seed", 1);
   std::vector<Case> cases;
   for (auto& j : vj::readNdjson(argv[2])) cases.push_back(parseCase(j));
